@@ -106,8 +106,11 @@ def _cls(name):
     raise KeyError(name)
 
 
-def object_kwargs(name):
+def object_kwargs(name, minimal=False):
     import numpy as np
+
+    if minimal and name in ("Drillhole", "ConcatenatedDrillhole"):
+        return {"collar": [0.0, 0.0, 10.0]}  # no surveys: optional attributes (end_of_hole) are absent from the file
 
     V = np.array(V4, dtype=float)
     if name == "Grid2D":
@@ -161,7 +164,7 @@ def create(ws, case):
             grp = DrillholeGroup.create(ws, name="dhg")
             e = Drillhole.create(ws, parent=grp, name="dh", **object_kwargs(name))
             return {"how": "uid", "uid": str(e.uid)}
-        kw = object_kwargs(name) if rec == "object" else {}
+        kw = object_kwargs(name, minimal=bool(case.get("minimal"))) if rec == "object" else {}
         if name in ("CustomGroup", "MapsGroup"):
             kw["entity_type_uid"] = uuid.UUID(int=0xC03C03 + len(name))
         e = cls.create(ws, name="ent", **kw)
@@ -516,6 +519,16 @@ def raw_matches(live, raw):
         return None
     if isinstance(live, bool) and isinstance(raw, int):
         return int(live) == raw
+
+    def num(c):
+        if isinstance(c, int) and not isinstance(c, bool):
+            return float(c)
+        if isinstance(c, dict) and set(c) == {"f"}:
+            return float.fromhex(c["f"])
+        return None
+
+    if num(live) is not None and num(raw) is not None:
+        return num(live) == num(raw)  # 7 stored as 7.0 is the same number; 123.5 stored as 123 is not
     if isinstance(live, (int, str)) and not isinstance(live, bool) and isinstance(raw, (int, str)):
         if isinstance(live, str) and live.startswith("uuid:"):
             return raw.strip("{}") == live[5:] if isinstance(raw, str) else None
@@ -714,4 +727,8 @@ def drive(case, work):
                 obs["raw_bad"].append({"attr": a, "live": s1[a], "raw": rv})
     if "__error__" in raw:
         obs["raw_error"] = raw["__error__"]
+    if case.get("typed"):
+        a = case["steps"][-1]["attr"]
+        obs["raw_match"] = raw_matches(s1[a], raw[a]) if a in raw and a in s1 else None
+        obs["raw_last"] = {"live": s1.get(a), "raw": raw.get(a)}
     return obs
